@@ -4,7 +4,7 @@ CONSTANTS MaxN = 0
           ChunkSz = 4
           MaxFiles = 0
           Devs = @DEVS@
-INVARIANTS AllFilesOK DevReport
+INVARIANTS StoredFilesChecked DevReport
 CONSTRAINT TraceConstraint
 POSTCONDITION TracePost
 CHECK_DEADLOCK FALSE
